@@ -18,7 +18,7 @@ ID = 'C08'
 LEVEL = 'exploration'
 HANG_ORACLE = 'C08.no-termination'
 CLASSES = [('corrupt', 10), ('random', 3), ('soup', 3), ('read_error', 2)]
-TIERS = {'quick': {'runs': 12000}}
+TIERS = {'quick': {}}
 RULE = ('seeded well-formed files damaged by 1-4 byte-, token- and '
         'line-level storage faults, random byte strings, DiffX-shaped soup, '
         'and injected read errors; each damaged copy is consumed by the '
